@@ -229,8 +229,8 @@ func (r *runner) wireBytes(n int) {
 		b       []byte
 		verdict string
 	}
-	var jobs []job
-	var lines []string
+	var jobs, ojobs []job
+	var lines, olines []string
 	for i := 0; i < n; i++ {
 		f := formats[i%3]
 		var b []byte
@@ -277,6 +277,37 @@ func (r *runner) wireBytes(n int) {
 		}
 		jobs = append(jobs, job{f, b, verdict})
 		lines = append(lines, "deser "+f.name+" "+hex.EncodeToString(b))
+		if f.name == "json" {
+			// the same bytes through the decoder with floats: the number tokens' parses are the oracle
+			t := newOrcTab()
+			t.addRuns(b)
+			ojobs = append(ojobs, job{f, b, verdict})
+			olines = append(olines, "jdeser "+t.String()+" "+hex.EncodeToString(b))
+		}
+	}
+	if oouts, err := runDriverChunks(olines); err != nil || len(oouts) != len(olines) {
+		r.disagree("bytes", fmt.Sprintf("%d requests", len(olines)), fmt.Sprintf("driver failure: %v", err), false, "bytes: the Lean driver did not answer (infrastructure)")
+	} else {
+		for i, j := range ojobs {
+			got := oouts[i]
+			r.sum.Evaluations++
+			r.sum.Count("bytes.totalO.json")
+			switch {
+			case strings.HasPrefix(got, "unsupported"):
+				r.sum.Count("bytes.modelO-unsupported.json")
+				r.sum.Count("bytes.modelO-unsupported.json." + strings.TrimPrefix(got, "unsupported "))
+				continue
+			case strings.HasPrefix(got, "ok "):
+				r.sum.Count("bytes.modelO-ok.json")
+			default:
+				r.sum.Count("bytes.modelO-error.json")
+			}
+			if got != j.verdict {
+				r.sum.Count("bytes.verdictO-mismatch.json")
+				r.disagree(map[string]any{"format": "json", "bytes": hex.EncodeToString(j.b), "text": string(j.b)}, j.verdict, got, false,
+					"bytes: Json.decO under the sampled oracle and the implementation give different verdicts on arbitrary/mutated json bytes")
+			}
+		}
 	}
 	outs, err := runDriverChunks(lines)
 	if err != nil || len(outs) != len(lines) {
@@ -286,9 +317,15 @@ func (r *runner) wireBytes(n int) {
 	for i, j := range jobs {
 		got := outs[i]
 		r.sum.Evaluations++
+		r.sum.Count("bytes.total." + j.f.name)
 		if got == "unsupported" {
 			r.sum.Count("bytes.model-unsupported." + j.f.name)
 			continue
+		}
+		if strings.HasPrefix(got, "ok ") {
+			r.sum.Count("bytes.model-ok." + j.f.name)
+		} else {
+			r.sum.Count("bytes.model-error." + j.f.name)
 		}
 		r.sum.Count("bytes.compared." + j.f.name)
 		if got != j.verdict && !(j.f.name == "json" && looseSame(got, j.verdict)) {
